@@ -16,7 +16,7 @@ pub fn fmt_li(li: &LanguageIdentifier) -> String {
     let dbg = format!("{:?}", li);
     let vs: Vec<&str> = li.variants().map(|v| v.as_str()).collect();
     let v = if dbg.contains("variants: None") { if !vs.is_empty() { "INCONSISTENT-variants".to_string() } else { "none".to_string() } } else { format!("[{}]", vs.join(",")) };
-    format!("{} {} {} {} {}", li.language.as_str(),
+    format!("{}{} {} {} {} {}", li.language.as_str(), if li.language.is_empty() { "!" } else { "" },
         li.script.map(|s| s.as_str().to_string()).unwrap_or_else(|| "-".into()),
         li.region.map(|s| s.as_str().to_string()).unwrap_or_else(|| "-".into()), v, li)
 }
